@@ -29,6 +29,7 @@ from __future__ import annotations
 import ast
 from typing import Dict, List, Optional, Tuple
 
+from engines import c28norm as cn
 from engines import pyfacts as pf
 from engines import relang as R
 from engines import strpred as sp
@@ -79,7 +80,10 @@ def _check_validator(ctx: Ctx, rule: str, m: pf.Module, fname: str, param_index:
     params = [a.arg for a in fn.args.posonlyargs + fn.args.args]
     ctx.need(len(params) > param_index, f'{fname}: expected a string parameter at position {param_index}')
     param = params[param_index]
-    L, tr = sp.function_language(m, fn, param, accept)
+    # normal form first (engines/c28norm.py): error messages built in a local in front of a `raise`, `ok = <test>; if not ok:` - neither changes
+    # which strings are accepted
+    fn_t = cn.inline_test_locals(cn.strip_failure_only_statements(fn))
+    L, tr = sp.function_language(m, fn_t, param, accept)
     # the partition is refined by the predicates a lowercase-name specification talks about, so that witnesses are representative
     cmp = R.compare(L, spec, extra=[R.NEWLINE, R.pred('str.isascii')])
     uses = '; '.join(f"`{u['call']}` with pattern {u['pattern']!r}" + (f" flags {u['flags']}" if u['flags'] else '') + f" (mode {u['mode']})"
@@ -138,6 +142,12 @@ def _insert_sites(m: pf.Module) -> List[Tuple[ast.Call, List[str], pf.FuncDef]]:
                 s = pf.const_str(a)
                 if s is None and isinstance(a, ast.JoinedStr):
                     s = pf.fstring_template(a, lambda e: ' ? ')
+                if s is None and isinstance(a, (ast.Name, ast.Attribute)):
+                    # the statement text held in a local or a module constant (also one imported from a sibling module)
+                    try:
+                        s = sp.const_string(m, m.enclosing_func(node), a)
+                    except AnalysisError:
+                        s = None
                 if s is not None:
                     cols = _sql_insert_users(s)
                     if cols is not None:
@@ -277,6 +287,47 @@ def _guarded(ctx: Ctx, m: pf.Module, fn: pf.FuncDef, target: ast.Call, var: str,
     return True, ''
 
 
+def _need_no_unrecognised_use(ctx: Ctx, m: pf.Module, inner: pf.FuncDef, validator: str, var: str, is_guard) -> None:
+    """"No validator call guards the INSERT" is evidence only when every use of the validator around the INSERT is a call this rule
+    understands.  Decline when the validator is mentioned in the enclosing top-level function (or in a helper of this module it calls) in
+    another form: aliased, passed on, called on a value whose relation to `var` is not a plain copy, or called inside a helper."""
+    top = inner
+    while m.enclosing_func(top) is not None:
+        top = m.enclosing_func(top)  # type: ignore[assignment]
+    scopes: List[pf.FuncDef] = [top]
+    seen = {top.name}
+    work = [top]
+    while work:
+        f = work.pop()
+        for c in pf.calls_in(f, into_nested_defs=True):
+            d = pf.dotted(c.func)
+            if d and d not in seen and d != validator and m.has_func(d) and '.' not in d:
+                seen.add(d)
+                scopes.append(m.func(d))
+                work.append(m.func(d))
+    for f in scopes:
+        funcs = [f] + [x for x in ast.walk(f) if isinstance(x, (ast.FunctionDef, ast.AsyncFunctionDef)) and x is not f]
+        understood = set()
+        for sub in funcs:
+            for c in pf.calls_in(sub):
+                if pf.dotted(c.func) == validator:
+                    understood.add(id(c.func))
+                    # a call on another variable is understood (it guards something else); a call whose argument is not a plain variable is not
+                    if f is not top:
+                        raise AnalysisError(f'{m.rel}::{top.name}: {validator} is called inside the helper {f.name}; whether that covers the inserted `{var}` is not followed')
+        for x in ast.walk(f):
+            if isinstance(x, ast.Name) and x.id == validator and id(x) not in understood:
+                raise AnalysisError(f'{m.rel}::{f.name}: {validator} is referenced other than by a direct call (line {x.lineno}); not recognised')
+    # direct calls in the enclosing function whose argument is neither `var` nor another plain variable
+    for sub in [top] + [x for x in ast.walk(top) if isinstance(x, (ast.FunctionDef, ast.AsyncFunctionDef)) and x is not top]:
+        for c in pf.calls_in(sub):
+            if pf.dotted(c.func) == validator and not is_guard(c, var, sub):
+                idx = 1 if validator == 'check_valid_new_user' else 0
+                a = _arg_of(c, validator, idx)
+                ctx.need(a is not None and isinstance(pf.resolve_expr(sub, a) if isinstance(a, ast.Name) else a, ast.Name),
+                         f'{m.rel}::{sub.name}: `{pf.nsrc(c)[:70]}` - what it validates is not recognised')
+
+
 def _same_value(fn: pf.FuncDef, arg: ast.AST, var: str) -> bool:
     """arg is the variable var, or a single-assignment local that is a plain copy of it."""
     if isinstance(arg, ast.Name) and arg.id != var:
@@ -284,19 +335,39 @@ def _same_value(fn: pf.FuncDef, arg: ast.AST, var: str) -> bool:
     return isinstance(arg, ast.Name) and arg.id == var
 
 
+_SIGS: Dict[str, pf.FuncDef] = {}  # validator name -> definition (filled by _check_must_call); arguments are matched by parameter name
+
+
+def _arg_of(c: ast.Call, callee: str, index: int) -> Optional[ast.AST]:
+    """The argument `c` passes for the index-th parameter of `callee` (positional or by keyword); None when the call does not fit."""
+    fd = _SIGS.get(callee)
+    if fd is None:
+        return None
+    params = [a.arg for a in fd.args.posonlyargs + fd.args.args]
+    if index >= len(params):
+        return None
+    b = cn.bind_call(c, fd)
+    return None if b is None else b.get(params[index])
+
+
 def _is_username_guard(c: ast.Call, var: str, fn: pf.FuncDef) -> bool:
-    return pf.dotted(c.func) == 'check_valid_new_user' and len(c.args) >= 2 and _same_value(fn, c.args[1], var) \
-        and not any(k.arg == 'username' for k in c.keywords)
+    if pf.dotted(c.func) != 'check_valid_new_user':
+        return False
+    a = _arg_of(c, 'check_valid_new_user', 1)
+    return a is not None and _same_value(fn, a, var)
 
 
 def _secret_guard(m: pf.Module, L: R.Lang, spec: R.Lang, notes: List[str]):
     """Guard recogniser for validate_credentials_secret_name_input(<var or a normalised copy that lets exactly the same raw values
     through>); a normalising call that lets other raw values through is not a guard and leaves a note for the report."""
     def is_guard(c: ast.Call, var: str, fn: pf.FuncDef) -> bool:
-        if pf.dotted(c.func) != 'validate_credentials_secret_name_input' or len(c.args) != 1 or c.keywords:
+        if pf.dotted(c.func) != 'validate_credentials_secret_name_input':
+            return False
+        a0 = _arg_of(c, 'validate_credentials_secret_name_input', 0)
+        if a0 is None:
             return False
         try:
-            raw = _raw_language(m, fn, var, c.args[0], L)
+            raw = _raw_language(m, fn, var, a0, L)
         except AnalysisError:
             raw = None
         if raw is None:
@@ -322,6 +393,9 @@ def _check_must_call(ctx: Ctx, L_secret: R.Lang, L_user: R.Lang) -> None:
         ctx.need(mu.has_func(name), f'{F_UTILS}: {name} vanished')
         ctx.need(not m.has_func(name), f'{F_AUTH}: {name} is redefined locally')
     ctx.need(m.has_func('check_valid_new_user'), f'{F_AUTH}: check_valid_new_user vanished')
+    _SIGS.clear()
+    _SIGS.update({'check_valid_new_user': m.func('check_valid_new_user'), 'is_valid_username': mu.func('is_valid_username'),
+                  'validate_credentials_secret_name_input': mu.func('validate_credentials_secret_name_input')})
 
     sites = _insert_sites(m)
     ctx.need(sites, f'{F_AUTH}: no INSERT INTO users statement found')
@@ -329,12 +403,18 @@ def _check_must_call(ctx: Ctx, L_secret: R.Lang, L_user: R.Lang) -> None:
         qual = m.qualname(inner)
         cons_base = f'{F_AUTH}::{qual}::INSERT INTO users'
         ctx.need('username' in cols, f'{qual}: INSERT INTO users without a username column {cols}')
-        ctx.need(len(call.args) >= 2 and isinstance(call.args[1], ast.Tuple) and len(call.args[1].elts) == len(cols),
+        row = call.args[1] if len(call.args) >= 2 else next((k.value for k in call.keywords if k.arg in ('args', 'params', 'parameters')), None)
+        if isinstance(row, ast.Name):
+            ctx.need(len(pf.assignments(inner).get(row.id, [])) == 1, f'{qual}: the INSERT argument `{row.id}` does not have exactly one binding')
+            row = pf.resolve_expr(inner, row)
+        ctx.need(isinstance(row, (ast.Tuple, ast.List)) and len(row.elts) == len(cols) and not any(isinstance(x, ast.Starred) for x in row.elts),
                  f'{qual}: INSERT argument tuple does not line up with the column list')
-        vals = dict(zip(cols, call.args[1].elts))
+        vals = dict(zip(cols, row.elts))
         u_expr = vals['username']
         ctx.need(isinstance(u_expr, ast.Name), f'{qual}: the inserted username is not a plain variable')
         ok, where = _guarded(ctx, m, inner, call, u_expr.id, _is_username_guard)  # type: ignore[union-attr]
+        if not ok:
+            _need_no_unrecognised_use(ctx, m, inner, 'check_valid_new_user', u_expr.id, _is_username_guard)  # type: ignore[union-attr]
         ctx.check(ok, 'R3', cons_base + '::username checked by check_valid_new_user',
                   f'the INSERT INTO users in {qual} can be reached without a preceding check_valid_new_user(tx, {u_expr.id}, ...) '  # type: ignore[union-attr]
                   f'(no dominating call in {where}): the username is stored unvalidated', m.path, call.lineno)
@@ -344,7 +424,10 @@ def _check_must_call(ctx: Ctx, L_secret: R.Lang, L_user: R.Lang) -> None:
         else:
             ctx.need(isinstance(s_expr, ast.Name), f'{qual}: the inserted secret name is not a plain variable')
             notes: List[str] = []
-            ok, where = _guarded(ctx, m, inner, call, s_expr.id, _secret_guard(m, L_secret, spec_secret_name(), notes))
+            sg = _secret_guard(m, L_secret, spec_secret_name(), notes)
+            ok, where = _guarded(ctx, m, inner, call, s_expr.id, sg)
+            if not ok and not notes:
+                _need_no_unrecognised_use(ctx, m, inner, 'validate_credentials_secret_name_input', s_expr.id, sg)
             ctx.check(ok, 'R3', cons_base + '::secret name validated',
                       f'the INSERT INTO users in {qual} can run without a preceding validate_credentials_secret_name_input({s_expr.id}) '
                       f'(no dominating call in {where}): the secret name is stored unvalidated' + ''.join('; ' + x for x in notes), m.path, call.lineno)
